@@ -79,9 +79,37 @@ def _powhsm_pages(run, PV, PA, pr, g):
             self.generic_visit(node)
             return node
 
+    import copy as _copy
+
+    class _Len(ast.NodeTransformer):
+        def visit_Call(self, node):
+            self.generic_visit(node)
+            if isinstance(node.func, ast.Name) and node.func.id == "len" and len(node.args) == 1 and isinstance(node.args[0], ast.Constant) \
+                    and isinstance(node.args[0].value, (bytes, str)):
+                return ast.copy_location(ast.Constant(value=len(node.args[0].value)), node)
+            return node
+    single = {}
+
+    class _Loc(ast.NodeTransformer):
+        def visit_Name(self, node):
+            if isinstance(node.ctx, ast.Load) and node.id in single:
+                return ast.copy_location(ast.Constant(value=single[node.id]), node)
+            return node
+
     def fold(e):
-        import copy as _copy
-        return fold_consts(P, _Off().visit(_copy.deepcopy(e)), pr, PA, locals_=locs_)
+        e2 = fold_consts(P, _Loc().visit(_Off().visit(_copy.deepcopy(e))), pr, PA, locals_=locs_)
+        return fold_consts(P, _Len().visit(e2), pr, PA, locals_=locs_)
+    # locals bound once, outside the page loop, to an integer constant (data_offset = self.Offset.DATA, header_end = data_offset + len(HEADER)) stand for it
+    for _ in range(3):
+        for nm_, ds_ in PV.defs(pr, PA).items():
+            if nm_ in single or len(ds_) != 1 or ds_[0].value is None or ds_[0].kind != "assign":
+                continue
+            try:
+                v_ = ieval(fold(ds_[0].value), {})
+            except (NotClosed, TypeError):
+                continue
+            if isinstance(v_, int) and not isinstance(v_, bool):
+                single[nm_] = v_
     LH = P.module_const(pr.module.name, "LEGACY_HEADER")
 
     def atom(e):
@@ -108,34 +136,52 @@ def _powhsm_pages(run, PV, PA, pr, g):
                 return ("MSG", op == "==")
         return None
     t_edges = [n for n in g.nodes if n.kind == "T" and n.cond is not None and n.cond.ast is loop.test]
-    run.require(len(t_edges) >= 1, "PowHsmAttestation.run: page loop test edge not found")
-    # the flag variable tested by the loop and the legacy offset variable keep their names; their entry values are symbolic
+    run.require(len(t_edges) >= 1 and isinstance(loop.test, ast.Name), "PowHsmAttestation.run: page loop is not `while <flag>:` (idiom not understood)")
+    MOREV = loop.test.id
+    defs_all = PV.defs(pr, PA)
+
+    def const_defs(nm):
+        return sorted(norm(d.value) for d in defs_all.get(nm, []) if d.value is not None)
+
+    def entry_env(e):
+        """legacy-offset style variables (assigned the constants 0 and 1 only): 1 on entry to an iteration - the 0 is set on the legacy path, which ends the gathering"""
+        env = {}
+        for n_ in ast.walk(e):
+            if isinstance(n_, ast.Name) and n_.id != R and const_defs(n_.id) == ["0", "1"]:
+                env[n_.id] = 1
+        return env
     n_cases = 0
+    acc_kinds = set()
     for lf in Walker(A, pr, PA, atom, max_leaves=64).walk(t_edges[0], stops={head}):
         kind = "next test" if lf.kind == "stop" else f"{lf.kind} at line {lf.node.lineno}"
-        apps = [(st, v) for k, st, v in lf.effects if k == "aug" and isinstance(st.target, ast.Subscript) and norm(st.target.value) == "bufs"]
-        reqs = [v for k, st, v in lf.effects if k == "assign" and st is sends[0]]
+        # what this iteration adds to the gathered data: BUF[name] += X  or  PAGES.append(X)
+        apps = []
+        for k, st, v in lf.effects:
+            if k == "aug" and isinstance(st.target, ast.Subscript) and isinstance(st.op, ast.Add) and norm(st.target.slice) == "name":
+                apps.append(("aug", norm(st.target.value), st.value, st))
+            if k == "expr" and isinstance(v, ast.Call) and call_name(v) == "append" and isinstance(v.func.value, ast.Name) and len(v.args) == 1 and isinstance(st.value, ast.Call):
+                apps.append(("list", v.func.value.id, st.value.args[0], st))
+        reqs = [st.value for k, st, v in lf.effects if k == "assign" and st is sends[0]]
         for val in completions({k: b for k, b in lf.pc.items() if k in ("MSG", "LEGH", "MORE")}, ["MSG", "LEGH", "MORE"]):
             n_cases += 1
             leg = val["MSG"] and val["LEGH"]
             desc = f"gathering the {'message' if val['MSG'] else 'envelope'}, legacy header {'present' if val['LEGH'] else 'absent'}, more pages {'announced' if val['MORE'] else 'not announced'}"
             okk = kind == "next test"
-            # what is appended: answer[DATA + off:] with off closed on this path
             off = None
             if len(apps) == 1:
-                v = fold(lf.deep(apps[0][0].value, stop=(R,)))
+                acc_kinds.add((apps[0][0], apps[0][1]))
+                v = fold(lf.deep(apps[0][2], stop=(R,)))
                 if isinstance(v, ast.Subscript) and isinstance(v.value, ast.Name) and v.value.id == R and isinstance(v.slice, ast.Slice) and v.slice.upper is None and v.slice.step is None:
                     try:
-                        off = ieval(v.slice.lower, {"msgoffset": 1}) - DATA if v.slice.lower is not None else -DATA
+                        off = ieval(v.slice.lower, entry_env(v.slice.lower)) - DATA if v.slice.lower is not None else -DATA
                     except (NotClosed, TypeError):
                         off = None
-            tgt_ok = len(apps) == 1 and norm(apps[0][0].target.slice) == "name" and isinstance(apps[0][0].op, ast.Add)
             want_off = 0 if leg else 1
-            run.check("R4p", okk and tgt_ok and off == want_off, f"[{desc}] appends answer[DATA+{want_off}:]", key=f"PowHsmAttestation.run|pages|append|{val['MSG']}|{val['LEGH']}|{val['MORE']}",
-                      where=pr.loc(apps[0][0]) if apps else pr.loc(loop),
-                      message=f"page loop, case [{desc}]: the iteration does `{kind}` and appends {[norm(lf.deep(a[0].value, stop=(R,)))[:60] for a in apps]} (offset {off} after the data start); "
-                              f"expected exactly answer[DATA+{want_off}:] appended to bufs[name] - a {'legacy message has no flag byte, its first byte belongs to the message' if leg else 'page starts with the more-pages flag'}")
-            more_v = lf.env.get("more", lf.bind.get("more"))
+            run.check("R4p", okk and len(apps) == 1 and off == want_off, f"[{desc}] appends answer[DATA+{want_off}:]", key=f"PowHsmAttestation.run|pages|append|{val['MSG']}|{val['LEGH']}|{val['MORE']}",
+                      where=pr.loc(apps[0][3]) if apps else pr.loc(loop),
+                      message=f"page loop, case [{desc}]: the iteration does `{kind}` and appends {[norm(lf.deep(a[2], stop=(R,)))[:60] for a in apps]} (offset {off} after the data start); "
+                              f"expected exactly answer[DATA+{want_off}:] - a {'legacy message has no flag byte, its first byte belongs to the message' if leg else 'page starts with the more-pages flag'}")
+            more_v = lf.env.get(MOREV, lf.bind.get(MOREV))
             mt = norm(fold(more_v)) if more_v is not None else None
             if leg:
                 okm = isinstance(more_v, ast.Constant) and more_v.value is False
@@ -143,31 +189,64 @@ def _powhsm_pages(run, PV, PA, pr, g):
                 okm = more_v is not None and atom(more_v) == ("MORE", True)
             run.check("R4p", okm, f"[{desc}] goes on iff {'never' if leg else 'MORE'}", key=f"PowHsmAttestation.run|pages|more|{val['MSG']}|{val['LEGH']}|{val['MORE']}",
                       where=pr.loc(loop), message=f"page loop, case [{desc}]: the loop flag becomes `{mt}`; expected {'False (a legacy message is a single page)' if leg else 'answer[DATA] == 1'}")
-            pg = lf.env.get("page")
-            run.check("R4p", pg is not None and norm(pg) in ("page + 1", "1 + page"), f"[{desc}] next page", key=f"PowHsmAttestation.run|pages|page|{val['MSG']}|{val['LEGH']}|{val['MORE']}",
-                      where=pr.loc(loop), message=f"page loop, case [{desc}]: the page number becomes `{norm(pg) if pg is not None else 'page (unchanged)'}`, not page + 1")
-            rq = [norm(r_) for r_ in reqs]
-            run.check("R4p", rq == ["self.send(op, bytes([page]))"], f"[{desc}] requests the current page", key=f"PowHsmAttestation.run|pages|request|{val['MSG']}|{val['LEGH']}|{val['MORE']}",
-                      where=pr.loc(sends[0]), message=f"page loop, case [{desc}]: requests {rq}; expected self.send(op, bytes([page]))")
+            # the page requested is the number of pages gathered so far: a counter starting at 0 and incremented once, or len() of the page list
+            okq, whyq = False, f"requests {[norm(r_) for r_ in reqs]}"
+            if len(reqs) == 1 and norm(reqs[0].func) == "self.send" and len(reqs[0].args) == 2 and norm(reqs[0].args[0]) == "op" \
+                    and isinstance(reqs[0].args[1], ast.Call) and norm(reqs[0].args[1].func) == "bytes" and len(reqs[0].args[1].args) == 1 \
+                    and isinstance(reqs[0].args[1].args[0], ast.List) and len(reqs[0].args[1].args[0].elts) == 1:
+                pe = reqs[0].args[1].args[0].elts[0]
+                if isinstance(pe, ast.Name):
+                    nxt = lf.env.get(pe.id)
+                    okq = nxt is not None and norm(nxt) in (f"{pe.id} + 1", f"1 + {pe.id}")
+                    whyq = f"the page counter `{pe.id}` becomes `{norm(nxt) if nxt is not None else pe.id + ' (unchanged)'}`"
+                    state_pg = ("counter", pe.id)
+                elif isinstance(pe, ast.Call) and norm(pe.func) == "len" and len(pe.args) == 1 and isinstance(pe.args[0], ast.Name):
+                    okq = len(apps) == 1 and apps[0][0] == "list" and apps[0][1] == pe.args[0].id
+                    whyq = f"the page number is len({pe.args[0].id}) but the iteration appends to {[a[1] for a in apps]}"
+                    state_pg = ("len", pe.args[0].id)
+                if okq:
+                    acc_kinds.add(("page",) + state_pg)
+            run.check("R4p", okq, f"[{desc}] requests page number = pages gathered so far", key=f"PowHsmAttestation.run|pages|request|{val['MSG']}|{val['LEGH']}|{val['MORE']}",
+                      where=pr.loc(sends[0]), message=f"page loop, case [{desc}]: {whyq}; expected self.send(op, bytes([<pages gathered so far>])) with the count going up by one")
             if leg:
-                mo = lf.env.get("msgoffset")
-                bk = lf.env.get("brk")
-                run.check("R4p", isinstance(bk, ast.Constant) and bk.value is True, f"[{desc}] the envelope will be the message", key="PowHsmAttestation.run|pages|legacy-envelope",
-                          where=pr.loc(loop), message="after a legacy message the flag that makes the envelope a copy of the message is not set")
+                flags_ = [k_ for k_, v_ in lf.env.items() if k_ != MOREV and isinstance(v_, ast.Constant) and v_.value is True]
+                okf = False
+                for fl_ in flags_:
+                    for n_ in A.own_nodes(pr):
+                        if isinstance(n_, ast.If) and isinstance(n_.test, ast.Name) and n_.test.id == fl_ and any(isinstance(x, ast.Break) for x in n_.body):
+                            asg = [x for x in n_.body if isinstance(x, ast.Assign) and isinstance(x.targets[0], ast.Subscript) and isinstance(x.value, ast.Subscript)]
+                            if len(asg) == 1 and norm(asg[0].targets[0].slice) == "'envelope'" and norm(asg[0].value.slice) == "'message'" \
+                                    and norm(asg[0].targets[0].value) == norm(asg[0].value.value):
+                                okf = True
+                run.check("R4p", okf, f"[{desc}] the envelope will be the message", key="PowHsmAttestation.run|pages|legacy-envelope",
+                          where=pr.loc(loop), message="after a legacy message nothing makes the envelope a copy of the message (flag not set, or not acted upon before the envelope is requested)")
     run.floor("R4p", "page-loop cases", n_cases, 6)
     # entry state of the page loop, per buffer
-    inits = [n for n in g.nodes if n.kind == "stmt" and isinstance(n.ast, ast.Assign) and any(isinstance(t, ast.Subscript) and norm(t.value) == "bufs" for t in n.ast.targets)]
     for cn in [n for n in g.nodes if n.kind == "cond" and n.ast is loop.test][:1]:
-        for nm_, want_ in (("page", "0"), ("more", "True")):
-            vs = {norm(d.value) for d in PV.reaching(pr, PA, nm_, cn) if d.value is not None and not any(d.node is x for x in ast.walk(loop))}
+        inits = {MOREV: "True"}
+        for tag in acc_kinds:
+            if tag[0] == "page" and tag[1] == "counter":
+                inits[tag[2]] = "0"
+            if tag[0] == "list":
+                inits[tag[1]] = "[]"
+        for nm_, want_ in sorted(inits.items()):
+            vs = {norm(d.value) for d in PV.reaching(pr, PA, nm_, cn) if d.value is not None and d.kind == "assign" and not any(d.node is x for x in ast.walk(loop))}
             run.check("R4p", vs == {want_}, f"page loop starts with {nm_} = {want_}", key=f"PowHsmAttestation.run|pages|init|{nm_}", where=pr.loc(loop),
                       message=f"the page loop is entered with {nm_} = {sorted(vs)}; expected {want_}")
-    mo_defs = sorted(norm(d.value) for d in PV.defs(pr, PA).get("msgoffset", []) if d.value is not None)
-    run.check("R4p", mo_defs == ["0", "1"], "msgoffset is 1, and 0 only for a legacy message", key="PowHsmAttestation.run|pages|msgoffset-defs", where=pr.loc(),
-              message=f"msgoffset is assigned {mo_defs}")
-    empties = [n for n in inits if isinstance(n.ast.value, ast.Constant) and n.ast.value.value == b"" and norm(n.ast.targets[0].slice) == "name"]
-    run.check("R4p", len(empties) >= 1 and all(any(e_ in g.dominators(cn) for e_ in empties) for cn in g.nodes if cn.kind == "cond" and cn.ast is loop.test),
-              "each buffer starts empty", key="PowHsmAttestation.run|pages|init|buffer", where=pr.loc(loop), message="bufs[name] is not reset to b'' before its pages are gathered")
+        for tag in acc_kinds:
+            if tag[0] == "aug":
+                empties = [n for n in g.nodes if n.kind == "stmt" and isinstance(n.ast, ast.Assign) and isinstance(n.ast.targets[0], ast.Subscript)
+                           and norm(n.ast.targets[0].value) == tag[1] and norm(n.ast.targets[0].slice) == "name"
+                           and isinstance(n.ast.value, ast.Constant) and n.ast.value.value == b""]
+                run.check("R4p", bool(empties) and any(e_ in g.dominators(cn) for e_ in empties), "each buffer starts empty", key="PowHsmAttestation.run|pages|init|buffer",
+                          where=pr.loc(loop), message=f"{tag[1]}[name] is not reset to b'' before its pages are gathered")
+            if tag[0] == "list":
+                joins = [n for n in A.own_nodes(pr) if isinstance(n, ast.Assign) and isinstance(n.targets[0], ast.Subscript) and norm(n.targets[0].slice) == "name"
+                         and norm(n.value) == f"b''.join({tag[1]})" and not any(n is x for x in ast.walk(loop))]
+                run.check("R4p", len(joins) == 1 and any(after in g.dominators(jn) for jn in g.nodes_of(joins[0])), "the buffer is the concatenation of the pages gathered",
+                          key="PowHsmAttestation.run|pages|init|buffer", where=pr.loc(loop), message=f"after the page loop the buffer is not b''.join({tag[1]})")
+    run.check("R4p", len({t for t in acc_kinds if t[0] in ("aug", "list")}) == 1, "one way of accumulating pages", key="PowHsmAttestation.run|pages|accumulator", where=pr.loc(loop),
+              message=f"pages are accumulated as {sorted(acc_kinds)}")
 
 
 def run(run):
